@@ -437,8 +437,7 @@ def run(ctx: core.Ctx):
             ctx.count("xml_feature:" + ft)
         if meta["real"] is None or meta["dry"] is None:
             ctx.count("xml_raised:" + str(meta["raised"]))
-            if meta["reread_ok"]:
-                ctx.violation("kf_xml_apply_raised", f"XMLTransformerPipeline.apply raised {meta['raised']} on {doc!r}", _js(meta))
+            # an exception on a document that re-reads as UTF-8 is a model mismatch (xml_model_ok), i.e. a tie break
             terms.append(term)
             metas.append(meta)
             ctx.case({"transformer": kind[0], "doc": repr(doc), "raised": meta["raised"]})
@@ -494,8 +493,6 @@ def run(ctx: core.Ctx):
 
     for i in bad["xml_isolation_ok"]:
         m = metas[i]
-        if m["reread_ok"] and (m["real"] is None or m["dry"] is None):
-            continue  # reported as kf_xml_apply_raised above
         ctx.violation("kf_xml_reread_no_isolation", f"a well-formed document that is not UTF-8 is not isolated: raised={m['raised']} "
                       f"(expected: apply returns None, failure recorded, file untouched, findings unfixed at line 0) "
                       f"bytes={bytes(m['data'] or b'')!r} kind={m['kind']} real={m['real']}", _js(m))
